@@ -26,6 +26,8 @@ struct World {
     markers: Vec<(String, String)>,
     upload_ids: BTreeMap<String, String>,
     raw_svc: s3s::service::S3Service,
+    /// the same backend behind a service with a host parser (virtual-hosted-style addressing)
+    vhost_svc: s3s::service::S3Service,
 }
 
 fn blob(data: &[u8]) -> StreamingBlob {
@@ -56,6 +58,11 @@ impl World {
         // a pre-existing file inside the root that belongs to nobody
         std::fs::write(env.root.join("stray-file.txt"), b"MARK-NOBODY-1 stray").unwrap();
         let raw_svc = s3s::service::S3ServiceBuilder::new(SharedFs(env.fs.clone())).build();
+        let vhost_svc = {
+            let mut b = s3s::service::S3ServiceBuilder::new(SharedFs(env.fs.clone()));
+            b.set_host(s3s::host::SingleDomain::new("s3.example.test").expect("domain"));
+            b.build()
+        };
         let mut w = World {
             env,
             owner: BTreeMap::new(),
@@ -63,6 +70,7 @@ impl World {
             markers: vec![("MARK-OUTSIDE-1".into(), "outside".into()), ("MARK-OUTSIDE-2".into(), "outside".into()), ("MARK-NOBODY-1".into(), "nobody".into())],
             upload_ids: BTreeMap::new(),
             raw_svc,
+            vhost_svc,
         };
         w.setup();
         w
@@ -121,6 +129,18 @@ impl World {
 }
 
 fn gen_evil_key(c: &mut Case<'_>, w: &World, victim: &str) -> (String, &'static str) {
+    let (mut key, class) = gen_evil_key_inner(c, w, victim);
+    // a key ending in a slash names a "directory object": backends may take another code path for it
+    if c.t.chance(40) && !key.ends_with('/') {
+        key.push('/');
+        if c.t.bool() {
+            key.push_str("x/");
+        }
+    }
+    (key, class)
+}
+
+fn gen_evil_key_inner(c: &mut Case<'_>, w: &World, victim: &str) -> (String, &'static str) {
     let root = w.env.root.display().to_string();
     let sandbox = w.env.sandbox.display().to_string();
     let bookkeeping: Vec<String> = w.owner.keys().filter(|p| p.parent() == Some(w.root_rel().as_path())).filter_map(|p| p.file_name().and_then(|n| n.to_str()).map(str::to_owned)).collect();
@@ -209,13 +229,30 @@ fn run_op(c: &mut Case<'_>, w: &World) -> OpResult {
         };
         let (method, body): (&str, Vec<u8>) = match kind % 4 {
             0 => ("GET", vec![]),
-            1 => ("PUT", format!("{body_marker} written over http").into_bytes()),
+            1 => ("PUT", if key.ends_with('/') && c.t.bool() { vec![] } else { format!("{body_marker} written over http").into_bytes() }),
             2 => ("DELETE", vec![]),
             _ => ("HEAD", vec![]),
         };
-        let path = format!("/{a}/{}", enc(c, &key));
-        c.label(format!("http:{method}"));
-        let mut b = http::Request::builder().method(method).uri(path.as_str()).header("host", "s3.example.test");
+        // addressing: path-style, or virtual-hosted-style (service with a host parser) where the bucket is a label of the
+        // Host header - also labels that are no bucket names at all
+        let vhost = c.t.chance(64);
+        let (path, host, named_bucket) = if vhost {
+            let label = match c.t.below(6) {
+                0 | 1 => a.clone(),
+                2 => ".".to_owned(),
+                3 => "..".to_owned(),
+                4 => format!("{a}.."),
+                _ => (*c.t.pick(&["", "../outside", "%2e", "bucket-b/../bucket-c", "."])).to_owned(),
+            };
+            let p = if c.t.chance(96) { "/".to_owned() } else { format!("/{}", enc(c, &key)) };
+            (p, format!("{label}.s3.example.test"), label)
+        } else {
+            (format!("/{a}/{}", enc(c, &key)), "s3.example.test".to_owned(), a.clone())
+        };
+        let query = if path == "/" && method == "GET" && c.t.bool() { "?list-type=2" } else { "" };
+        c.label(format!("http:{method}{}", if vhost { ":vhost" } else { "" }));
+        let uri = format!("{path}{query}");
+        let mut b = http::Request::builder().method(method).uri(uri.as_str()).header("host", host.as_str());
         if !body.is_empty() {
             b = b.header("content-length", body.len().to_string());
         }
@@ -226,14 +263,14 @@ fn run_op(c: &mut Case<'_>, w: &World) -> OpResult {
             _ => "http-head",
         };
         let Ok(req) = b.body(s3s::Body::from(body)) else {
-            return OpResult { name, response_text: String::new(), named: vec![a], ok: false, body_marker: None };
+            return OpResult { name, response_text: String::new(), named: vec![named_bucket], ok: false, body_marker: None };
         };
-        let resp = block_on(call_raw(&w.raw_svc, req));
+        let resp = block_on(call_raw(if vhost { &w.vhost_svc } else { &w.raw_svc }, req));
         let (text, ok) = match resp {
             Ok(r) => (format!("{:?}\n{}", r.headers, r.body_text()), r.status < 400),
             Err(e) => (e, false),
         };
-        return OpResult { name, response_text: text, named: vec![a], ok, body_marker: (method == "PUT").then_some(body_marker) };
+        return OpResult { name, response_text: text, named: vec![named_bucket], ok, body_marker: (method == "PUT").then_some(body_marker) };
     }
     let mut named = vec![a.clone()];
     let (name, (text, ok), marker): (&'static str, (String, bool), Option<String>) = match kind {
